@@ -39,6 +39,7 @@ fn emit_case(otlp: &emit_otlp::Otlp, c: &Case, vid: i64) {
     let kind_typed_metric = emit::Kind::Metric;
     let seqi: Vec<i64> = vec![1, 2];
     let seqf: Vec<f64> = vec![1.5, 2.5];
+    let none: Option<i64> = None;
     let seqi_zeros: Vec<i64> = vec![0, 0, 0, 0];
     let seqi_cancel: Vec<i64> = vec![1, -1, 2, -2];
     let seqf_zeros: Vec<f64> = vec![0.0, -0.0];
@@ -53,7 +54,13 @@ fn emit_case(otlp: &emit_otlp::Otlp, c: &Case, vid: i64) {
     let owned_str_metric = emit::Value::from("metric").to_owned();
     let (disp_span, disp_metric) = (Shown("span"), Shown("metric"));
     let (string_span, string_metric) = (String::from("span"), String::from("metric"));
-    let mut props: Vec<(&str, emit::Value)> = vec![("vid", emit::Value::from(vid)), ("metric_name", emit::Value::from("m"))];
+    let mut props: Vec<(&str, emit::Value)> = vec![("vid", emit::Value::from(vid))];
+    // the names are no part of the routing rule: every other case carries none (the encoders
+    // then fall back to the rendered message)
+    if vid % 2 == 0 {
+        props.push(("metric_name", emit::Value::from("m")));
+        props.push(("span_name", emit::Value::from("s")));
+    }
     match &c.kind[..] {
         "absent" => {}
         "span" => props.push(("evt_kind", emit::Value::from("span"))),
@@ -82,6 +89,10 @@ fn emit_case(otlp: &emit_otlp::Otlp, c: &Case, vid: i64) {
         "i64" => props.push(("metric_value", emit::Value::from(42i64))),
         "f64" => props.push(("metric_value", emit::Value::from(1.5f64))),
         "u64big" => props.push(("metric_value", emit::Value::from(u64::MAX))),
+        "u64small" => props.push(("metric_value", emit::Value::from(5u64))),
+        "i128small" => props.push(("metric_value", emit::Value::from(7i128))),
+        "i128big" => props.push(("metric_value", emit::Value::from(i128::MIN))),
+        "null" => props.push(("metric_value", emit::Value::capture_sval(&none))),
         "seqi" => props.push(("metric_value", emit::Value::capture_sval(&seqi))),
         "seqf" => props.push(("metric_value", emit::Value::capture_sval(&seqf))),
         // boundary totals
@@ -129,7 +140,10 @@ struct Outcome {
 fn run_subset(coll: &Collector, proto: Proto, gzip: bool, signals: &[Signal], cases: &[(usize, &Case)]) -> Vec<Outcome> {
     let sc = coll.scenario(proto, [vec![], vec![], vec![]], [false; 3]);
     let _: Option<Decision> = None;
-    let otlp = client::build(&sc, proto, gzip, signals);
+    // configuration forms the routing rule does not depend on rotate over the emitters
+    let k = signals.iter().map(|s| 1usize << s.idx()).sum::<usize>() + proto as usize;
+    let forms = client::Forms { resource: k % 2 == 1, headers: (k / 2) % 2 == 1, entry_builder: (k / 4) % 2 == 1 };
+    let otlp = client::build_with(&sc, proto, gzip, signals, forms);
     let src = otlp.metric_source();
     let mut deltas = Vec::with_capacity(cases.len());
     let mut flush_ok = true;
